@@ -42,6 +42,31 @@ func Check(v any) error {
 		return errors.New("jsonapi: ID field's api tag is empty")
 	}
 
+	// Check the names (json tags) of the fields
+	names := map[string]bool{}
+
+	for i := 0; i < value.NumField(); i++ {
+		sf := value.Type().Field(i)
+		apiTag := sf.Tag.Get("api")
+		name := sf.Tag.Get("json")
+
+		if sf.Name == "ID" || apiTag == "" {
+			continue
+		}
+
+		isField := apiTag == "attr" || apiTag == "rel" || strings.HasPrefix(apiTag, "rel,")
+
+		if (isField && (name == "" || name == "id")) || (name != "" && names[name]) {
+			return fmt.Errorf(
+				"jsonapi: field %q of type %q must have a unique json tag that is not \"id\"",
+				sf.Name,
+				resType,
+			)
+		}
+
+		names[name] = true
+	}
+
 	// Check attributes
 	for i := 0; i < value.NumField(); i++ {
 		sf := value.Type().Field(i)
